@@ -50,6 +50,10 @@ type zeroErr struct{}
 
 func (zeroErr) Error() string { return "zero-valued error" }
 
+type issuesErr []string
+
+func (e issuesErr) Error() string { return "issues: " + strings.Join(e, "; ") }
+
 type zeroStrErr string
 
 func (e zeroStrErr) Error() string { return "empty string error" }
@@ -74,6 +78,8 @@ func filterFunc(name string, rec *recorder) func(interface{}) (interface{}, erro
 		"fail": func(v interface{}) (interface{}, error) { return nil, errLib },
 		// fails with an error whose value is the zero value of its (non-pointer) type
 		"zfail": func(v interface{}) (interface{}, error) { return nil, zeroErr{} },
+		// fails with an error whose dynamic type cannot be compared with == (a slice type): errors are values to hand on, not to compare
+		"ufail": func(v interface{}) (interface{}, error) { return nil, issuesErr{"first issue", "second issue"} },
 		// a function whose result is a Go number that is not a float64 (kind int3): it replaces the value as it is
 		"k3": func(v interface{}) (interface{}, error) { return int(3), nil },
 		// a user function that itself uses the library and hands the error it got back unchanged
@@ -558,6 +564,8 @@ func runCase(c *caseT) string {
 		return runParked(c)
 	case "cold":
 		return runCold(c)
+	case "deepdoc":
+		return runDeepDoc(c)
 	case "coldhist":
 		return runColdHist(c)
 	}
